@@ -1,7 +1,22 @@
 """C18 bounded stand-in: the real `hitsound_copy` on pairs of small osu charts against the clauses of the
 property statement (same notes as the target; no sound that the source lacks at that time; counts bounded by the
 source and by what the target's notes can hold; every named sample kept on a note or as an event sample;
-inputs untouched).  Per-bit counting only - which bit the library calls clap / whistle does not matter."""
+inputs untouched).  Per-bit counting only - which bit the library calls clap / whistle does not matter.
+
+Input dimensions besides the notes themselves (all stored in the case, so it can be rebuilt): row labels of every
+list of both charts (default / reversed / offset / gappy / permuted), rows in any order, the offset column int64-typed,
+either chart without hits / without holds / without any note, times from a pool with negative, large, sub-millisecond
+and 1-ulp-apart values, the 'normal' bit (1) next to whistle / finish / clap, sample / addition / custom set numbers on
+notes of either side, the same sample name several times at one time, sample names with non-ASCII letters, blanks,
+',' ':' '#' ';' and differing only in case, event samples in the source chart, the same chart object as source and
+target, and a second call that uses the first result as its source or as its target (`then`).
+
+Clauses added for them:
+  result_shares_no_data_with_inputs       editing the inputs after the call changes the result, or editing the result
+                                          changes an input (the inputs are then not really left alone)
+  sample_name_with_semicolon_kept_whole   every per-time clause at a time where a source sample name contains ';'
+                                          (kept apart: a name with ';' comes out as several names)
+"""
 from __future__ import annotations
 
 from collections import Counter
@@ -10,26 +25,46 @@ from pyvc.dsl import bounded
 from pyvc.bounded import replayer
 
 TIMES = [0.0, 100.0, 250.0, 1000.5, 1000.9]  # the last two lie inside the same millisecond
+MORE_TIMES = [-500.25, -0.5, 250.00000000000003, 333.3333333333333, 1000.0, 3600000.125, 0.001]  # negative; 250 + 1 ulp; inside the ms of 1000.5 / 1000.9; large; sub-ms
 BITS = (2, 4, 8)                      # whistle, finish, clap in the .osu format
 VOLUMES = [0, 20, 30]
+MORE_VOLUMES = [5, 100]
 FILES = ["a.wav", "b.wav", "c.ogg", "d.wav", "e.wav"]
+ODD_FILES = ["\u30c9\u30e9\u30e0\u301c.wav", "snare hit.wav", "A.WAV", "x,y.wav", "c:d.wav", " lead.wav", "tail.wav ", "#1.wav", "\u3000\u00a0.wav", "caf\u00e9//1.ogg", "\"q\".wav"]
+SEMI_FILES = ["kick;01.wav", ";.wav", "a.wav;b.wav"]
 OWN_FILES = ["own1.wav", "own2.wav"]  # names that never occur in a source chart
+LABEL_SCHEMES = ["default", "default", "default", "reversed", "offset", "gappy", "permuted"]
 
 
 # ---------------------------------------------------------------------------------------------- chart building
-def _build(notes, events=()):
-    """notes: [[time, column, length | None, hitsound bits, volume, file name]] in list order."""
+def _build(notes, events=(), labels=None, int_offsets=False):
+    """notes: [[time, column, length | None, hitsound bits, volume, file name (, [sample set, addition set, custom set])]] in
+    list order.  labels: {"hits" | "holds" | "samples": [row labels]} (default 0..n-1).  int_offsets: the offset columns
+    of lists whose times are all whole numbers are typed int64."""
     from reamber.osu import OsuMap, OsuHit, OsuHold, OsuBpm
     from reamber.osu.OsuSample import OsuSample
     from reamber.osu.lists import OsuBpmList
     from reamber.osu.lists.OsuSampleList import OsuSampleList
     from reamber.osu.lists.notes import OsuHitList, OsuHoldList
 
+    def sets(n):
+        return dict(zip(("sample_set", "addition_set", "custom_set"), n[6])) if len(n) > 6 else {}
+
     m = OsuMap()
     m.bpms = OsuBpmList([OsuBpm(0.0, 120.0)])
-    m.hits = OsuHitList([OsuHit(offset=t, column=c, hitsound_set=hs, volume=v, hitsound_file=f) for t, c, ln, hs, v, f in notes if ln is None])
-    m.holds = OsuHoldList([OsuHold(offset=t, column=c, length=ln, hitsound_set=hs, volume=v, hitsound_file=f) for t, c, ln, hs, v, f in notes if ln is not None])
+    m.hits = OsuHitList([OsuHit(offset=n[0], column=n[1], hitsound_set=n[3], volume=n[4], hitsound_file=n[5], **sets(n)) for n in notes if n[2] is None])
+    m.holds = OsuHoldList([OsuHold(offset=n[0], column=n[1], length=n[2], hitsound_set=n[3], volume=n[4], hitsound_file=n[5], **sets(n)) for n in notes if n[2] is not None])
     m.samples = OsuSampleList([OsuSample(offset=t, sample_file=f, volume=v) for t, f, v in events])
+    for k in ("hits", "holds", "samples"):
+        lst = getattr(m, k)
+        df = lst.df
+        if int_offsets and len(df) and all(float(x).is_integer() for x in df["offset"]):
+            df = df.astype({"offset": "int64"})
+        if labels and labels.get(k) is not None:
+            assert len(labels[k]) == len(df)
+            df = df.set_axis(list(labels[k]), axis=0)
+        if df is not lst.df:
+            lst.df = df
     return m
 
 
@@ -52,17 +87,62 @@ def _read_notes(m):
     return out
 
 
+def _as_input_notes(m):
+    """the notes of a chart in the input form [time, column, length | None, bits, volume, file] (for a chart that a first
+    call returned and a second call receives)."""
+    out = []
+    for lst, hold in ((m.hits, False), (m.holds, True)):
+        h = lst.df
+        for i in range(len(h)):
+            r = h.iloc[i]
+            out.append([float(r["offset"]), int(r["column"]), float(r["length"]) if hold else None, int(r["hitsound_set"]), int(r["volume"]), r["hitsound_file"]])
+    return out
+
+
+def _edit_in_place(m, k):
+    for lst in (m.hits, m.holds, m.samples):
+        df = lst.df
+        if len(df):
+            df.loc[:, "offset"] = df["offset"] + 7 * k
+            df.loc[:, "volume"] = df["volume"] + k
+
+
 # ---------------------------------------------------------------------------------------------- the clauses
 def _run_case(case):
+    src_notes, tgt_notes = case["src"], case["tgt"]
+    lab, ints = case.get("labels", {}), case.get("int_offsets", {})
+    src = _build(src_notes, case.get("src_events", ()), lab.get("src"), ints.get("src", False))
+    tgt = src if case.get("same_object") else _build(tgt_notes, case.get("tgt_events", ()), lab.get("tgt"), ints.get("tgt", False))
+    failed, res = _check_call(src, tgt, src_notes, tgt_notes, case.get("src_events", ()), independence=case.get("then") is None)
+    then = case.get("then")
+    if then is not None and res is not None and not failed:
+        # a second call that receives what the first one returned (whatever row labels / dtypes that chart has)
+        other = _build(then["other"], (), None, False)
+        from_res = _as_input_notes(res)
+        if then["role"] == "src":
+            ev = [[float(t), f, int(v)] for t, f, v in zip(res.samples.df["offset"].tolist(), res.samples.df["sample_file"].tolist(), res.samples.df["volume"].tolist())]
+            failed2, _ = _check_call(res, other, from_res, then["other"], ev)
+        else:
+            failed2, _ = _check_call(other, res, then["other"], from_res, ())
+        failed += [(w, "second call (first result used as " + then["role"] + "): " + d) for w, d in failed2]
+    # de-duplicate clause ids, keep first detail
+    seen, out = set(), []
+    for w, d in failed:
+        if w not in seen:
+            seen.add(w)
+            out.append((w, d))
+    return out
+
+
+def _check_call(src, tgt, src_notes, tgt_notes, src_events, independence=True):
+    """one call of the real function on (src, tgt) against the statement; -> (failed, result chart | None)"""
     from reamber.algorithms.osu.hitsound_copy import hitsound_copy
 
-    src_notes, tgt_notes = case["src"], case["tgt"]
-    src, tgt = _build(src_notes), _build(tgt_notes, case.get("tgt_events", ()))
     f_src, f_tgt = _freeze(src), _freeze(tgt)
     try:
         res = hitsound_copy(src, tgt)
     except Exception as ex:
-        return [("completes", f"hitsound_copy raised {type(ex).__name__}: {ex}")]
+        return [("completes", f"hitsound_copy raised {type(ex).__name__}: {ex}")], None
     failed = []
 
     # neither input is modified
@@ -71,6 +151,24 @@ def _run_case(case):
     if _freeze(tgt) != f_tgt:
         failed.append(("target_not_modified", "target chart differs after the call"))
 
+    _check_result(res, src_notes, tgt_notes, src_events, failed)
+
+    if independence and not failed:
+        # ... and stay unmodified: the result is a chart of its own (last, because it edits the charts)
+        f_res = _freeze(res)
+        _edit_in_place(src, 1)
+        if tgt is not src:
+            _edit_in_place(tgt, 2)
+        if _freeze(res) != f_res:
+            failed.append(("result_shares_no_data_with_inputs", "the result changed when the source / target charts were edited in place after the call"))
+        f_src, f_tgt = _freeze(src), _freeze(tgt)
+        _edit_in_place(res, 3)
+        if _freeze(src) != f_src or _freeze(tgt) != f_tgt:
+            failed.append(("result_shares_no_data_with_inputs", "an input chart changed when the result was edited in place"))
+    return failed, res
+
+
+def _check_result(res, src_notes, tgt_notes, src_events, failed):
     got = _read_notes(res)
     ev = [(float(t), f) for t, f in zip(res.samples.df["offset"].tolist(), res.samples.df["sample_file"].tolist())]
 
@@ -79,10 +177,11 @@ def _run_case(case):
     got_notes = Counter((t, c, ln) for t, c, ln, _, _ in got)
     if want_notes != got_notes:
         failed.append(("same_notes_as_target", f"missing {sorted((want_notes - got_notes).elements(), key=repr)}, extra {sorted((got_notes - want_notes).elements(), key=repr)}"))
-        return failed
+        return
 
     times = sorted({float(n[0]) for n in src_notes} | {float(n[0]) for n in tgt_notes} | {t for t, _ in ev})
     for t in times:
+        n_before = len(failed)
         s_at = [n for n in src_notes if float(n[0]) == t]
         t_at = [n for n in tgt_notes if float(n[0]) == t]
         r_at = [n for n in got if n[0] == t]
@@ -104,9 +203,10 @@ def _run_case(case):
             if f not in s_files:
                 what = "target_own_sounds_not_carried" if f in own_files else "carried_sample_file_present_in_source"
                 failed.append((what, f"time {t}: result note carries file {f!r}; source files at that time {sorted(s_files)} (the target had it itself: {f in own_files})"))
+        s_event_files = {f for tt, f, _ in src_events if float(tt) == t}
         for f in e_files:
-            if f not in s_files:
-                failed.append(("event_sample_present_in_source", f"time {t}: event sample {f!r}; source files at that time {sorted(s_files)}"))
+            if f not in s_files and f not in s_event_files:
+                failed.append(("event_sample_present_in_source", f"time {t}: event sample {f!r}; source files at that time {sorted(s_files)}, source event samples {sorted(s_event_files)}"))
 
         # ... with no more claps, finishes or whistles per time than the source had
         for b in BITS:
@@ -136,52 +236,124 @@ def _run_case(case):
             full = all(n[3] or n[4] for n in r_at)
             what = "every_excess_named_sample_becomes_event" if full else "named_sample_kept_on_note_or_event"
             failed.append((what, f"time {t}: source files {sorted(s_files.elements())}, on result notes {sorted(r_files.elements())}, event samples {sorted(e_files.elements())}, lost {sorted(lost.elements())}"))
-    # de-duplicate clause ids, keep first detail
-    seen, out = set(), []
-    for w, d in failed:
-        if w not in seen:
-            seen.add(w)
-            out.append((w, d))
-    return out
+        if any(";" in f for f in s_files):
+            # kept apart (see the module text): whatever fails at a time with a ';' in a source sample name - the pieces
+            # of a split name also take up target notes, so the counting clauses of that time are affected as well
+            failed[n_before:] = [("sample_name_with_semicolon_kept_whole", w + ": " + d) for w, d in failed[n_before:]]
 
 
 # ---------------------------------------------------------------------------------------------- generation
-def _side(rng, times, max_per_time, sound_p, file_pool, hold_p, files_per_time=None):
+def _side(rng, times, max_per_time, sound_p, file_pool, hold_p, files_per_time=None, volumes=VOLUMES, odd=False):
     notes = []
     for t in times:
         k = rng.randrange(1, max_per_time + 1)
         cols = [rng.randrange(0, 4) for _ in range(k)] if rng.random() < 0.2 else rng.sample(range(4), min(k, 4))
         pool = list(file_pool)
         rng.shuffle(pool)
+        if odd and rng.random() < 0.3 and pool:
+            pool += [pool[-1]] * 2  # the same name several times at one time
         nf = files_per_time if files_per_time is not None else 0
-        one_vol = rng.choice(VOLUMES) if rng.random() < 0.4 else None
+        one_vol = rng.choice(volumes) if rng.random() < 0.4 else None
         for i, c in enumerate(cols):
             ln = rng.choice([50.0, 300.0, 300.0, 0.0]) if rng.random() < hold_p else None  # a hold may have length 0
             hs = rng.choice([0, 2, 4, 6, 8, 10, 12, 14]) if rng.random() < sound_p else 0
-            v = one_vol if one_vol is not None else rng.choice(VOLUMES)
+            if odd and rng.random() < 0.25:
+                hs |= 1  # the 'normal' bit
+            v = one_vol if one_vol is not None else rng.choice(volumes)
             f = pool.pop() if (i < nf and pool) else ""
-            notes.append([t, c, ln, hs, v, f])
+            n = [t, c, ln, hs, v, f]
+            if odd and rng.random() < 0.2:
+                n.append([rng.randrange(0, 4), rng.randrange(0, 4), rng.choice([0, 0, 1, 7])])  # sample / addition / custom set
+            notes.append(n)
     rng.shuffle(notes)
     return notes
 
 
+def _labels(rng, n):
+    scheme = rng.choice(LABEL_SCHEMES)
+    if scheme == "default" or n == 0:
+        return None
+    if scheme == "reversed":
+        return list(range(n - 1, -1, -1))
+    if scheme == "offset":
+        return list(range(1000, 1000 + n))
+    if scheme == "gappy":
+        return sorted(rng.sample(range(0, 3 * n + 5), n))
+    out = list(range(n))
+    rng.shuffle(out)
+    return out
+
+
+def _chart_labels(rng, notes, events):
+    out = dict(hits=_labels(rng, sum(1 for n in notes if n[2] is None)), holds=_labels(rng, sum(1 for n in notes if n[2] is not None)), samples=_labels(rng, len(events)))
+    return {k: v for k, v in out.items() if v is not None}
+
+
 def _random_case(rng):
-    ts = rng.sample(TIMES, rng.randrange(1, 5))
-    tt = [t for t in TIMES if rng.random() < 0.6] if rng.random() < 0.7 else list(ts)
+    # the pool of times of this case: the five standard ones, or five out of those and the unusual ones
+    pool = list(TIMES) if rng.random() < 0.6 else sorted(rng.sample(TIMES + MORE_TIMES, 5))
+    plain = rng.random() < 0.45  # 45% of the cases as before; the others mix the further dimensions in
+    odd = not plain
+    volumes = VOLUMES if plain or rng.random() < 0.6 else VOLUMES + MORE_VOLUMES
+    files = list(FILES)
+    if odd and rng.random() < 0.35:
+        files = rng.sample(FILES, 2) + rng.sample(ODD_FILES, 3)
+        if "A.WAV" in files and "a.wav" not in files:
+            files[0] = "a.wav"
+    if odd and rng.random() < 0.06:
+        files[rng.randrange(len(files))] = rng.choice(SEMI_FILES)
+    hold_p_src = 0.3 if plain else rng.choice([0.3, 0.3, 0.3, 0.0, 1.0])
+    hold_p_tgt = 0.3 if plain else rng.choice([0.3, 0.3, 0.3, 0.0, 1.0])
+    ts = rng.sample(pool, rng.randrange(1, 5))
+    if odd and rng.random() < 0.05:
+        ts = []  # a source chart without notes
+    tt = [t for t in pool if rng.random() < 0.6] if rng.random() < 0.7 else list(ts)
     case = {}
     src = []
     for t in ts:
         nf = rng.choice([0, 0, 1, 2, 3, 4])
-        src += _side(rng, [t], max(rng.randrange(1, 4), nf), 0.75, FILES, 0.3, files_per_time=nf)
+        src += _side(rng, [t], max(rng.randrange(1, 4), nf), 0.75, files, hold_p_src, files_per_time=nf, volumes=volumes, odd=odd)
     rng.shuffle(src)
     case["src"] = src
     dirty = rng.random() < 0.25
-    tgt = _side(rng, tt, 3, 0.5 if dirty else 0.0, OWN_FILES, 0.3, files_per_time=(rng.choice([0, 1]) if dirty else 0)) if tt else []
+    tgt = _side(rng, tt, 3, 0.5 if dirty else 0.0, OWN_FILES, hold_p_tgt, files_per_time=(rng.choice([0, 1]) if dirty else 0), volumes=volumes, odd=odd and dirty) if tt else []
     if not dirty:
         for n in tgt:
             n[4] = 0
     case["tgt"] = tgt
-    case["tgt_events"] = [[rng.choice(TIMES), "old_event.wav", 40]] if rng.random() < 0.15 else []
+    case["tgt_events"] = [[rng.choice(pool), "old_event.wav", 40]] if rng.random() < 0.15 else []
+    if plain:
+        return case
+    if rng.random() < 0.2:
+        # the source chart has event samples of its own (the statement's named samples are those of its notes)
+        case["src_events"] = [[rng.choice(pool), rng.choice(["src_event.wav"] + files), rng.choice(volumes)] for _ in range(rng.randrange(1, 3))]
+    if rng.random() < 0.06:
+        # the same chart (object) as source and target
+        case["same_object"] = True
+        case["tgt"] = [list(n) for n in src]
+        case["tgt_events"] = []
+    if rng.random() < 0.6:
+        lab = {}
+        for side, notes, events in (("src", case["src"], case.get("src_events", [])), ("tgt", case["tgt"], case["tgt_events"])):
+            d = _chart_labels(rng, notes, events)
+            if d and not (side == "tgt" and case.get("same_object")):
+                lab[side] = d
+        if lab:
+            case["labels"] = lab
+    if rng.random() < 0.25:
+        case["int_offsets"] = {side: True for side in ("src", "tgt") if rng.random() < 0.6}
+    if rng.random() < 0.2 and not case.get("same_object"):
+        # a second call: the first result as the source of another target, or as the target of another source
+        role = rng.choice(["src", "tgt"])
+        times2 = [t for t in pool if rng.random() < 0.6] or [pool[0]]
+        if role == "src":
+            other = _side(rng, times2, 3, 0.0, OWN_FILES, 0.3, files_per_time=0, volumes=[0])
+        else:
+            other = []
+            for t in times2:
+                nf = rng.choice([0, 0, 1, 2])
+                other += _side(rng, [t], max(rng.randrange(1, 4), nf), 0.75, ["n1.wav", "n2.wav", "n3.wav"], 0.3, files_per_time=nf, volumes=volumes)
+        case["then"] = dict(role=role, other=other)
     return case
 
 
@@ -204,17 +376,53 @@ def _stats(case):
         s.add("target_has_own_sounds")
     if any(n[2] is not None for n in case["src"]) and any(n[2] is not None for n in case["tgt"]):
         s.add("holds_on_both_sides")
+    for side in ("src", "tgt"):
+        notes = case[side]
+        if not notes:
+            s.add(side + "_without_notes")
+        elif all(n[2] is None for n in notes):
+            s.add(side + "_without_holds")
+        elif all(n[2] is not None for n in notes):
+            s.add(side + "_without_hits")
+        if case.get("labels", {}).get(side):
+            s.add(side + "_non_default_row_labels")
+        if case.get("int_offsets", {}).get(side):
+            s.add(side + "_int_typed_offsets")
+    for k in ("src_events", "same_object", "then"):
+        if case.get(k):
+            s.add(k if k != "then" else "then_first_result_as_" + case["then"]["role"])
+    names = {n[5] for n in case["src"] if n[5]}
+    if any(";" in f for f in names):
+        s.add("sample_name_with_semicolon")
+    if names - set(FILES) - set(SEMI_FILES):
+        s.add("unusual_sample_names")
+    if any(len(n) > 6 for n in case["src"] + case["tgt"]):
+        s.add("sample_set_numbers")
+    if any(n[3] & 1 for n in case["src"] + case["tgt"]):
+        s.add("normal_bit")
+    if {float(n[0]) for n in case["src"] + case["tgt"]} & set(MORE_TIMES):
+        s.add("unusual_times")
+    for t in {float(n[0]) for n in case["src"]}:
+        f_at = [n[5] for n in case["src"] if float(n[0]) == t and n[5]]
+        if len(f_at) != len(set(f_at)):
+            s.add("same_sample_name_twice_at_a_time")
     return s
 
 
-@bounded("C18", note="real hitsound_copy on pairs of small osu charts (<= 4 times, <= 3-4 notes per time and side, all 8 hitsound bit sets, volumes {0,20,30}, 0-4 named samples per time, hits and holds) against the statement's clauses")
+@bounded("C18", note="real hitsound_copy on pairs of small osu charts (<= 4 times, <= 3-4 notes per time and side, all 8 hitsound bit sets, volumes {0,20,30}, 0-4 named samples per time, hits and holds; 55% with further dimensions: row labels, int-typed offsets, charts lacking a kind of note, unusual names / volumes, source event samples, same chart twice, a second call on the first result) against the statement's clauses")
 def hitsound_copy_vs_statement(rep):
     rng = rep.rng
     N = rep.n(1200, 40000)
     rep.bound = (f"up to {N} seeded pairs of osu charts: source 1..4 times from {TIMES} with 1..4 notes per time, hitsound bits in all 8 subsets of {{2,4,8}}, volumes {VOLUMES}, "
                  "0..4 distinct named sample files per time, 30% holds; target 0..4 times (any overlap) with 1..3 notes per time (20% repeated columns), 30% holds; "
-                 "25% of the targets carry own hitsounds / own sample files, 15% an own event sample")
-    rep.rule = "a case is one (source notes, target notes, target event samples); non-trivial when some source time carries a sound and the target has a note at that time"
+                 "25% of the targets carry own hitsounds / own sample files, 15% an own event sample.  In 40% of the pairs the five times are drawn from "
+                 f"{TIMES + MORE_TIMES} instead.  55% of the pairs additionally draw from: volumes + {MORE_VOLUMES}; source / target with hits only or holds only (20% each), source without notes (5%); "
+                 "the 'normal' bit on 25% of the notes, sample / addition / custom set numbers on 20%; the same sample name up to 3 times at a time; sample names with non-ASCII "
+                 "letters, blanks, U+3000 / U+00A0, ',' ':' '#' '//' quotes, 'A.WAV' next to 'a.wav' (35%), with ';' (6%); 1-2 event samples in the source chart (20%); the same "
+                 "chart object as source and target (6%); row labels of hits / holds / samples of either chart reversed / offset / gappy / permuted (60%, each list 4/7); offset "
+                 "columns int64-typed (25%); a second call with the first result as source or as target of a further chart (20%); after every single-call case both inputs and "
+                 "the result are edited in place to see that they share no data")
+    rep.rule = "a case is one (source notes, target notes, event samples, row labels, typing, optional second call); non-trivial when some source time carries a sound and the target has a note at that time"
     st = Counter()
     for _ in range(N):
         if rep.out_of_time(22, 300):
